@@ -4,3 +4,4 @@ pub mod strlit;
 pub mod syntax;
 pub mod schema;
 pub mod json;
+pub mod schema_mut;
